@@ -258,3 +258,165 @@ def s03(tier, seed):
     run.cov["traces_validated_against_impl"] += n_ok
     run.sample({"recorded": traces[0]})
     run.finish(require_witnesses=["request_with_unexpected_rows", "request_with_enforced_units"])
+
+
+# ---------------------------------------------------------------------------------------------------------------
+# S04: how the working columns come into being (Estimandizer)
+
+
+def _job_estimands(rows):
+    import math
+    import warnings
+
+    import pandas as pd
+
+    from harness import synth  # noqa: F401
+    from elexmodel.handlers.data.Estimandizer import Estimandizer
+
+    warnings.filterwarnings("ignore")
+    bad = []
+
+    def same(x, want):
+        if want["k"] == "nan":
+            return isinstance(x, float) and math.isnan(x)
+        if want["k"] == "huge":
+            return x > 1e300
+        return not math.isnan(x) and abs(float(x) - want["n"] / want["d"]) < 1e-12
+
+    for sc in rows:
+        par, inp = sc["par"], sc["inp"]
+        if isinstance(inp, list):  # ToJson prints the empty frame (an empty function) as []
+            inp = {}
+        if isinstance(sc["cols"], list):
+            sc["cols"] = {}
+        df = pd.DataFrame({c: [int(v["n"])] for c, v in inp.items()}, index=[0])
+        ests = par["ests"]
+        ret = None
+        try:
+            if par["entry"] == "baselines":
+                pointers = {e["e"]: (None if e["ptr"] == "<none>" else e["ptr"]) for e in ests}
+                out = Estimandizer().add_estimand_baselines(df, pointers, par["historical"], include_results_estimand=par["includeRes"])
+            else:
+                out, ret = Estimandizer().add_estimand_results(df, [e["e"] for e in ests], par["historical"])
+            outcome = "done"
+        except KeyError:
+            outcome = "error"
+        except Exception as e:  # noqa: BLE001
+            outcome = f"raised {type(e).__name__}: {str(e)[:80]}"
+        if outcome != sc["outcome"]:
+            bad.append({"clause": "outcome", "expected": sc["outcome"], "observed": outcome, "scenario": sc})
+            continue
+        if outcome != "done":
+            continue
+        want = sc["cols"]
+        if set(out.columns) != set(want):
+            bad.append({"clause": "columns", "expected": sorted(want), "observed": sorted(out.columns), "scenario": sc})
+            continue
+        wrong = [c for c in want if not same(out[c].iloc[0], want[c])]
+        if wrong:
+            bad.append({"clause": "values", "columns": wrong, "observed": {c: repr(out[c].iloc[0]) for c in wrong}, "scenario": sc})
+        if ret is not None and list(ret) != list(sc["ret"]):
+            bad.append({"clause": "returned_columns", "expected": sc["ret"], "observed": list(ret), "scenario": sc})
+    return bad
+
+
+def s04(tier, seed):
+    """Estimandizer (Estimands.tla): every exported call replayed into add_estimand_baselines / add_estimand_results."""
+    run = report.Run("S04", tier, seed)
+    run.assumptions += ["supplementary model, not a listed property: one-row frames (all operations are row-wise); values as exact rationals, "
+                        "nan and 'huge' (nan_to_num of +inf); a KeyError is the modelled error outcome"]
+    common.mc(run, "MC_Estimands", "MC_Estimands.cfg" if tier == "quick" else "MC_Estimands_thorough.cfg", timeout=3000, workers=16)
+    common.mc(run, "MC_Estimands", "MC_Estimands_demo_returned.cfg", expect_violation="ReturnedColumnsExistAlways", workers=4,
+              name="demo: results_weights handed in without results_turnout - a returned column does not exist")
+    common.mc(run, "MC_Estimands", "MC_Estimands_demo_order.cfg", expect_violation="OrderIndependentAlways", workers=4,
+              name="demo: historical blanking makes the order of the estimands observable")
+    res = tlc.run_tlc("MC_Estimands", "MC_Estimands_export.cfg", workers=1, timeout=1800, keep_stdout=False)
+    run.add_tlc("MC_Estimands_export", res)
+    scen = [v for t, v in res.printed if t == "SCEN"]
+    rnd = random.Random(seed)
+    if tier == "quick":
+        scen = rnd.sample(scen, 20000)
+    else:
+        run.cov["exhaustive"] = True
+    jobs = [scen[i : i + 500] for i in range(0, len(scen), 500)]
+    for bads, job in zip(common.pool().map(_job_estimands, jobs, chunksize=1), jobs):
+        run.cov["scenarios_replayed_into_impl"] += len(job)
+        for b in bads:
+            run.violation(b["clause"], {"clause": b["clause"]}, b)
+    for s in scen:
+        run.witness("outcome_" + s["outcome"])
+        if s["outcome"] == "done" and isinstance(s["cols"], dict):
+            if any(v["k"] == "nan" for v in s["cols"].values()):
+                run.witness("historical_blank_column")
+            if any(v["k"] == "huge" for v in s["cols"].values()):
+                run.witness("share_of_zero_turnout")
+            if "baseline_normalized_margin" in s["cols"]:
+                run.witness("margin_generated")
+    run.sample({"scenario": scen[0]})
+    run.finish(require_witnesses=["outcome_done", "outcome_error", "historical_blank_column", "share_of_zero_turnout", "margin_generated"])
+
+
+# ---------------------------------------------------------------------------------------------------------------
+# S05: where configuration and baseline data come from, and what the save options leave behind
+
+
+def _job_datasources(arg):
+    from harness import datasources
+
+    return datasources.job(arg)
+
+
+def s05(tier, seed):
+    """DataSources.tla: recorded histories of real client runs (scratch working directory, remote fake) validated by Trace_DataSources."""
+    from harness import datasources, tracecheck
+
+    run = report.Run("S05", tier, seed)
+    run.assumptions += ["supplementary model, not a listed property: argument > working directory > remote store for the configuration and the baseline data; "
+                        "what 'config' / 'data' in save_output leave behind; the caller's configuration dictionary is an object the run can mutate",
+                        "configurations list their features (the in-place growth needs a `features` entry) and the election id is a general election"]
+    common.mc(run, "MC_DataSources", "MC_DataSources.cfg", timeout=1800, workers=16,
+              constants={"MaxRuns": 3, "MaxOps": 4, "MaxVer": 2})
+    for inv, what in (("FreshestConfigUsed", "a saved configuration shadows a newer published one"),
+                      ("CachedDataCoversConfig", "cached data stays cut to the states configured when it was saved"),
+                      ("CallerConfigUntouched", "get_features appends to the caller's own feature list on every run")):
+        common.mc(run, "MC_DataSources", f"MC_DataSources_demo_{inv}.cfg", expect_violation=inv, workers=4, name=f"demo: {what}")
+    traces = []
+    # the three demonstrations as concrete histories: the code must do what the counterexamples say
+    demo = {k: datasources.run_events(v) for k, v in datasources.DEMOS.items()}
+    last = {k: [e for e in t["events"] if e["op"] == "run"][-1] for k, t in demo.items()}
+    # (what the counterexamples show is today's behaviour, not something a user relies on: a repaired tree is counted
+    # as drift in the evidence, never reported)
+    drift = run.cov.setdefault("advisory_drift", {})
+    if not (last["stale_config"]["outcome"] == "ok" and last["stale_config"]["obs"]["cfgVer"] == 1):
+        drift["demo_stale_config_not_reproduced"] = 1
+    if not (last["cached_data_cut_to_old_states"]["outcome"] == "ok" and last["cached_data_cut_to_old_states"]["obs"]["dataStates"] == ["AA"]):
+        drift["demo_cached_data_not_reproduced"] = 1
+    if last["caller_dictionary_grows"]["after"]["callerExtra"] != 2:
+        drift["demo_caller_dictionary_not_reproduced"] = 1
+    traces += list(demo.values())
+    n_jobs = 16 if tier == "quick" else 160
+    for recs in common.pool().map(_job_datasources, [(seed * 1000 + k, 25) for k in range(n_jobs)], chunksize=1):
+        traces += recs
+    for t in traces:
+        for e in t["events"]:
+            if e["op"] != "run":
+                continue
+            if e["outcome"] not in ("ok", "failed"):
+                run.violation("run_raised", {"clause": "run_raised", "outcome": e["outcome"]}, t)
+            if e["outcome"] == "failed":
+                run.witness("run_without_any_source")
+            if e["outcome"] == "ok":
+                run.witness("run_completed")
+                if e["after"]["localcfg"]["kind"] != "none" and e["cfgArg"] != "own" and e["obs"]["cfgVer"] == e["after"]["localcfg"]["ver"]:
+                    run.witness("config_from_working_directory_or_saved")
+                if e["cfgArg"] == "own" and e["saveCfg"]:
+                    run.witness("caller_dictionary_saved")
+    traces = [t for t in traces if all(e["op"] != "run" or e["outcome"] in ("ok", "failed") for e in t["events"])]
+
+    def on_reject(tr, clause, inv):
+        run.violation(clause, {"clause": clause}, {"trace": tr})
+
+    n_ok = tracecheck.validate("Trace_DataSources", "Trace_DataSources.cfg", traces, on_reject, run=run, chunk=500)
+    run.cov["traces_validated_against_impl"] += n_ok
+    run.sample({"recorded": traces[3]})
+    run.finish(require_witnesses=["run_without_any_source", "run_completed", "config_from_working_directory_or_saved", "caller_dictionary_saved"])
